@@ -742,7 +742,9 @@ impl Context {
         ty: TypeNodeId,
         is_global: bool,
     ) {
-        let ty = InferContext::substitute_type(ty);
+        // Records are stored with their fields sorted by name whatever order the (annotated) type lists them in:
+        // destructure against that storage order, as field access and record allocation do.
+        let ty = self.canonical_record_type_id(ty);
         let TypedPattern { pat, .. } = pattern;
         let span = pattern.to_span();
         match (pat, ty.to_type()) {
